@@ -442,7 +442,17 @@ pub fn parse_only(reader: MemReader, base: &str) -> (MemReader, Vec<ParserNode>,
 }
 
 /// Parse + full graph + all lints, the same steps `rva lint` performs.
+/// Sweep limit per fixed-point pass: turns a non-terminating pass into a recognisable panic
+/// ("verif-hooks: sweep limit exceeded") instead of a hang.
+pub const SWEEP_LIMIT: u64 = 20_000;
+
+pub fn arm_sweep_limit() {
+    riscv_analysis::verif_hooks::reset();
+    riscv_analysis::verif_hooks::set_limit(SWEEP_LIMIT);
+}
+
 pub fn analyze_with(reader: MemReader, base: &str) -> Analysis {
+    arm_sweep_limit();
     let (reader, nodes, errs) = parse_only(reader, base);
     let parse_errors: Vec<Diag> = errs
         .iter()
@@ -478,6 +488,7 @@ pub fn analyze_files(files: &[(String, String)], base: &str) -> Analysis {
 
 /// The editor entry point: `RVParser::run` (sorted `DiagnosticItem`s, titles only).
 pub fn run_editor_entry(reader: MemReader, base: &str) -> (MemReader, Vec<Diag>) {
+    arm_sweep_limit();
     let mut parser = RVParser::new(reader);
     let items = parser.run(base);
     let diags = items.iter().map(|d| diag_from_item(&parser.reader, d)).collect();
